@@ -33,7 +33,9 @@ TextArgs(q) == {Undef, Null, VBool(FALSE), VStr(<<>>), VStr(U("a")), VStr(U("b")
 TemplArgs(q) == {Undef, Null, VStr(<<>>), VStr(U("x")), VStr(U("$&")), VStr(U("$$")), VStr(<<36, 96>>), VStr(U("$'")), VStr(U("$1")),
                  VStr(U("[$&$&]")), VStr(U("$")), VStr(U("a$")), VStr(U("$0$<n>")), VStr(<<36, 39, 36, 96>>), VNumW(WOfInt(1))}
                  \cup (IF q THEN {} ELSE {VStr(U("$$$$")), VStr(U("$$&")), VStr(U("$&$")), VStr(U("$01")), VBool(TRUE), VStr(U("-$'-$&-"))})
-ArgsAt(m, i, q) == IF i \in IndexPos(m) THEN IndexArgs(q) ELSE IF i \in TextPos(m) THEN TextArgs(q)
+SearchArgs == {VStr(U("a|b")), VStr(U("b|a")), VStr(U("|")), VStr(U("x|")), VStr(U("bc|a")), VStr(U("ab|c")), VStr(U("X|Y|b")), VStr(U("c|abc|b")), VStr(U("z|q"))}
+ArgsAt(m, i, q) == IF m = "search" /\ i = 1 THEN TextArgs(q) \cup SearchArgs
+                   ELSE IF i \in IndexPos(m) THEN IndexArgs(q) ELSE IF i \in TextPos(m) THEN TextArgs(q)
                    ELSE IF i \in TemplPos(m) THEN TemplArgs(q)
                    ELSE IF m = "[]" THEN {VNumW(w) : w \in NumGrid \ {WNegZero}} \cup {VStr(u) : u \in IndexKeyTexts} ELSE {}
 ArgVectors(m, q) ==
